@@ -239,4 +239,12 @@ class ReShim:
 
     def search(self, pattern, string, flags=0):
         self.calls.append((pattern.concrete() if isinstance(pattern, SymBytesBase) else pattern, flags))
+        if not isinstance(string, SymBytesBase):
+            return _re.search(pattern, string, flags)
+        try:
+            parse(pattern, flags)
+        except Inconclusive:
+            # outside the LIT(.*)LIT class: general backtracking matcher executed on the symbolic text
+            from . import rematch
+            return rematch.search(pattern, string, flags)
         return search(pattern, string, flags)
